@@ -719,7 +719,7 @@ func init() {
 		prefixStep:   map[string]int{"quick": 7, "thorough": 2},
 		tokStep:      map[string]int{"quick": 9, "thorough": 3},
 	}
-	Register(&Composite{id: "C12", meta: c12stream.meta, Parts: []Prop{c12stream, c12items{}}, Names: []string{"stream", "object-items"}})
+	Register(&Composite{id: "C12", meta: c12stream.meta, Parts: []Prop{c12stream, c12items{}, c12reftok{}}, Names: []string{"stream", "object-items", "reference-tokens"}})
 	c13stream := &StreamProp{
 		id: "C13",
 		meta: Meta{Level: "exploration",
